@@ -300,6 +300,7 @@ impl Suite for C06Api {
                 let refs: Vec<Result<Option<i64>, ()>> = rows.iter().map(|row| ref_eval(&e, row)).collect();
                 let any_err = refs.iter().any(|x| x.is_err());
                 let mut sentinel_only = false;
+                let mut value_for_null = false;
                 let (impl_out, oracle) = match &out {
                     QOut::Rows(rs) => {
                         let cells: Vec<Sx> = rs
@@ -324,11 +325,13 @@ impl Suite for C06Api {
                         } else if got != want {
                             sentinel_only = got.len() == want.len()
                                 && got.iter().zip(want.iter()).all(|(g, w)| g == w || (*g == Some(None) && *w == Some(Some(i64::MAX))));
+                            value_for_null = got.len() == want.len()
+                                && got.iter().zip(want.iter()).all(|(g, w)| g == w || (matches!(g, Some(Some(_))) && *w == Some(None)));
                             Some(format!("`{}` returned {:?}, exact {:?}", sql, got, want))
                         } else {
                             None
                         };
-                        (Sx::l(vec![Sx::a("ok"), Sx::l(cells)]), oracle.map(|m| (if sentinel_only { "mismatch:expr:i64max-returned-as-null" } else { "mismatch:expr:wrong-value" }.to_string(), m)))
+                        (Sx::l(vec![Sx::a("ok"), Sx::l(cells)]), oracle.map(|m| (if sentinel_only { "mismatch:expr:i64max-returned-as-null" } else if value_for_null { "mismatch:expr:value-for-null" } else { "mismatch:expr:wrong-value" }.to_string(), m)))
                     }
                     QOut::Err(kind, msg) if kind == "overflow" => (
                         Sx::l(vec![Sx::a("err"), Sx::a("overflow")]),
